@@ -21,6 +21,8 @@ type C15Step struct {
 	Serving  bool   `json:"serving"` // testmode: the server still answers a fresh reattach + ping
 	ClosedCh bool   `json:"closedCh"`
 	Returned bool   `json:"returned"`
+	// proc mode, after kill / sigkill: for every client of the plugin, whether it reported Exited() within 8 s
+	AllExited []bool `json:"allExited,omitempty"`
 }
 
 type C15Op struct {
